@@ -60,6 +60,7 @@ type Job struct {
 	PanicSites        map[string]int
 	MaxDepth          int
 	Samples           []string
+	Records           []string
 }
 
 type JobOpts struct {
@@ -203,6 +204,11 @@ func (w *Worker) runPath(st *State) {
 				j.mu.Lock()
 				if x.why == "end" || x.why == "exit" {
 					j.Paths++
+					if j.Paths <= 2 && len(st.nondets) > 0 {
+						j.mu.Unlock()
+						w.witness(st)
+						j.mu.Lock()
+					}
 				} else {
 					j.Cut++
 					j.Reached["cut:"+x.why]++
@@ -359,6 +365,38 @@ func (w *Worker) report(st *State, id, kind string, cond Term) {
 		// additional distinct model for an already known site
 		nv.Count = 0
 		j.Violations = append(j.Violations, nv)
+	}
+	j.mu.Unlock()
+}
+
+// witness: a concrete input that drives the real code down this path (reachability witness,
+// recorded as an evidence sample).
+func (w *Worker) witness(st *State) {
+	var syms []string
+	for _, n := range st.nondets {
+		if n.Sym != "" {
+			syms = append(syms, n.Sym)
+		}
+	}
+	res, model := w.sol.model(st.pc, mkBool(true), syms)
+	if res != "sat" {
+		return
+	}
+	var parts []string
+	for _, n := range st.nondets {
+		if n.Sym == "" {
+			parts = append(parts, fmt.Sprintf("%s=%d", n.Kind, n.Val))
+		} else {
+			parts = append(parts, n.Kind+"="+decodeModelValue(n.Kind, model[n.Sym]))
+		}
+	}
+	if len(parts) > 24 {
+		parts = append(parts[:24], "…")
+	}
+	j := w.job
+	j.mu.Lock()
+	if len(j.Samples) < 4 {
+		j.Samples = append(j.Samples, "path witness: "+strings.Join(parts, " ")+" events="+fmt.Sprint(traceStrings(st)))
 	}
 	j.mu.Unlock()
 }
